@@ -122,6 +122,7 @@ type p2Scenario struct {
 	corruptVolume     string
 	symlinkedVolumes  int
 	duplicatedVolumes int
+	siblingSets       int
 	idxSpelled        string
 	identical         []bool
 	nIdentical        int
@@ -522,6 +523,20 @@ func buildP2Scenario(r *core.R, p p2ScenParams) *p2Scenario {
 			}
 		}
 	}
+	// Neighbours in the same directory: another recovery set whose base name
+	// extends this one's with a dot (its files match <base>.*.par2 and sort
+	// before the volumes), and an unreadable file of a set whose name merely
+	// starts with the same letters. Neither is any of this set's business.
+	if srng := rand.New(rand.NewSource(p.Seed ^ 0x51b1)); p.Kind != "fixed" && srng.Intn(4) == 0 {
+		base := strings.TrimSuffix(filepath.Base(env.idx), ".par2")
+		sib := filepath.Join(env.dir, "sibling-data.bin")
+		if os.WriteFile(sib, scen.Garbage(srng, 50+srng.Intn(300)), 0644) == nil {
+			if par2.Create(filepath.Join(env.dir, base+".0sib.par2"), []string{sib}, par2.CreateOptions{SliceByteCount: 16, NumParityShards: 2, NumGoroutines: 1}) == nil {
+				sc.siblingSets++
+			}
+		}
+		os.WriteFile(filepath.Join(env.dir, base+"2.vol00+01.par2"), scen.Garbage(srng, 700), 0644)
+	}
 	// The index path as the caller spells it: the same file, not in clean form.
 	sc.idxSpelled = env.idx
 	if p.Kind != "fixed" {
@@ -609,6 +624,9 @@ func (sc *p2Scenario) describe() map[string]interface{} {
 	}
 	if sc.symlinkedVolumes > 0 {
 		m["symlinked_volumes"] = sc.symlinkedVolumes
+	}
+	if sc.siblingSets > 0 {
+		m["sibling_sets_in_directory"] = sc.siblingSets
 	}
 	if sc.duplicatedVolumes > 0 {
 		m["duplicated_volumes"] = sc.duplicatedVolumes
